@@ -111,6 +111,14 @@ CLAIMS = {
             "Does not decide hit rates or numeric staleness bounds.",
             "Trusted: KVStore get/put atomic at return (C14-8); handlers atomic (checked).",
             "DESIGN.md §5 C16"),
+    "C17": ("CFG path enumeration per reply/ack site and replication mode; must-facts at every apply and version-table write; idiom recogniser for the three vector-clock dominance routines",
+            "Decides the ordering clauses: the primary replies only after its own store write and the waits its mode promises (all_of / any_of over one fresh future per backup); a backup / chain node "
+            "acks or forwards only after applying (or waiting out a newer write); replicated writes are applied only if newer per key and recorded before the store write suspends; "
+            "the chain head replies only after the tail's ack; CRAQ dirty-before-apply, clean-after-commit per write, reads re-check after their suspension; multi-leader version table written "
+            "before the store write, only for first/dominating/resolver-chosen versions read in the same step; dominance routines agree; LWW is a total order. "
+            "Convergence at quiescence as a theorem is not decided.",
+            "Trusted: constant store write latency; handlers atomic (checked).",
+            "DESIGN.md §5 C17"),
 }
 
 NOT_YET = "rule pack not built yet in this session (see DESIGN.md §11); no check is claimed for it"
